@@ -387,7 +387,7 @@ pub fn run(tier: Tier) -> i32 {
         let (kind, _n, cls, ..) = sp.nth(*i).unwrap_or_default();
         stats.violation(mk(*i, format!("hang/{kind}:{cls}"), "no answer within the 10 s per-input cap".into()));
     }
-    if let Some((kind, name, _c, desc, text, _)) = sp.nth(1) {
+    if let Some((kind, name, _c, desc, text, _)) = (0..2000).find_map(|i| sp.nth(i)) {
         stats.sample(json!({"kind": kind, "base": name, "mutation": desc, "input_head": text.chars().take(100).collect::<String>()}));
     }
     let exhaustive = done >= n;
